@@ -20,6 +20,8 @@ thread_local! {
     static RESERVED_AT_FIRST_READ: Cell<Option<usize>> = const { Cell::new(None) };
 }
 
+include!("interp_serde_plain.rs");
+
 /// Iterator whose size_hint lies.
 struct Lying<I> {
     inner: I,
@@ -78,6 +80,27 @@ pub fn run_inner(case: &Case, out: &mut Outcome) -> Result<(), Bad> {
     let mode = case.h("mode") % 4;
     let hint_sel = case.h("hint") as usize;
     let claim = if hint_sel == 0 { None } else if hint_sel == 1 { Some(entries.len()) } else { Some(HINTS[hint_sel % HINTS.len()]) };
+    // element types other than the tracked pair: zero-sized, one byte, wide, bool, strings
+    let etype = case.h("etype");
+    if etype != 0 {
+        match etype % 6 {
+            1 => run_plain::<(), ()>(case, out, plan, claim)?,
+            2 => run_plain::<u8, u8>(case, out, plan, claim)?,
+            3 => run_plain::<String, u64>(case, out, plan, claim)?,
+            4 => run_plain::<u64, ()>(case, out, plan, claim)?,
+            5 => run_plain::<(), String>(case, out, plan, claim)?,
+            _ => run_plain::<bool, String>(case, out, plan, claim)?,
+        }
+        let st = alloc::stats();
+        if st.n_live != 0 {
+            bad!("C20", "block-leaked", "{} blocks still allocated", st.n_live);
+        }
+        alloc::check_zones(true);
+        if let Some(v) = world::take_violation() {
+            return Err((v.property, Box::leak(v.kind.into_boxed_str()), v.detail));
+        }
+        return Ok(());
+    }
     let err_pos = case.h("err"); // 0 = no error, else 1-based element position that fails
     let has_dup = {
         let mut ids: Vec<u32> = entries.iter().map(|e| e.0).collect();
